@@ -255,18 +255,18 @@ func (x *c11) readWrapperD(h *ssa.Function, depth int) (idx int, ok bool, defect
 		}
 	}
 	succ, fail, errV := c11ErrEdges(u.call)
-	for _, b := range h.Blocks {
+	for _, b := range c11RetBlocks(h) {
 		ret, ok := b.Instrs[len(b.Instrs)-1].(*ssa.Return)
 		if !ok {
 			continue
 		}
-		ev := ret.Results[len(ret.Results)-1]
+		ev := c11Results(ret)[len(c11Results(ret))-1]
 		k, isNil := ev.(*ssa.Const)
 		isNil = isNil && k.Value == nil
 		switch {
 		case errV != nil && ev == errV && lanes.Dominates(u.call, ret):
-		case !lanes.Dominates(u.call, ret) && x.errCtor(ev):
-		case c11Under(fail, b) && x.errCtor(ev):
+		case !lanes.Dominates(u.call, ret) && x.errAt(ev, b):
+		case c11Under(fail, b) && x.errAt(ev, b):
 		case c11Under(succ, b) && isNil:
 		default:
 			return 0, false, "a return of the helper may report success although its read failed or was short"
@@ -304,12 +304,12 @@ func (x *c11) writeWrapper(h *ssa.Function, depth int) (int, bool) {
 	if res.Len() == 0 || types.TypeString(res.At(res.Len()-1).Type(), nil) != "error" {
 		return 0, false
 	}
-	for _, b := range h.Blocks {
+	for _, b := range c11RetBlocks(h) {
 		ret, ok := b.Instrs[len(b.Instrs)-1].(*ssa.Return)
 		if !ok {
 			continue
 		}
-		if !lanes.Dominates(u.call, ret) && !x.errCtor(ret.Results[len(ret.Results)-1]) {
+		if !lanes.Dominates(u.call, ret) && !x.errAt(c11Results(ret)[len(c11Results(ret))-1], ret.Block()) {
 			return 0, false
 		}
 	}
@@ -465,20 +465,20 @@ func (x *c11) allocReaderD(h *ssa.Function, depth int) (idx int, ok bool, defect
 	}
 	succ, fail, errV := c11ErrEdges(u.call)
 	nsucc := 0
-	for _, b := range h.Blocks {
+	for _, b := range c11RetBlocks(h) {
 		ret, ok := b.Instrs[len(b.Instrs)-1].(*ssa.Return)
 		if !ok {
 			continue
 		}
-		ev := ret.Results[1]
+		ev := c11Results(ret)[1]
 		k, isNil := ev.(*ssa.Const)
 		isNil = isNil && k.Value == nil
 		switch {
-		case c11Under(succ, b) && isNil && c11FullView(ret.Results[0]) == ssa.Value(mk):
+		case c11Under(succ, b) && isNil && c11FullView(c11Results(ret)[0]) == ssa.Value(mk):
 			nsucc++
 		case errV != nil && ev == errV && lanes.Dominates(u.call, ret) && c11Under(fail, b):
-		case !lanes.Dominates(u.call, ret) && x.errCtor(ev):
-		case c11Under(fail, b) && x.errCtor(ev):
+		case !lanes.Dominates(u.call, ret) && x.errAt(ev, b):
+		case c11Under(fail, b) && x.errAt(ev, b):
 		default:
 			return 0, false, "a return of the helper may report success although its read failed or was short"
 		}
@@ -797,6 +797,11 @@ func c11Under(blocks []*ssa.BasicBlock, at *ssa.BasicBlock) bool {
 // of whose returns are such values.
 func (x *c11) errCtor(v ssa.Value) bool { return x.errCtorD(v, 0) }
 
+// errAt: v is a certainly non-nil error when returned from block b.
+func (x *c11) errAt(v ssa.Value, b *ssa.BasicBlock) bool {
+	return x.errCtor(v) || c11KnownNonNil(v, b)
+}
+
 func (x *c11) errCtorD(v ssa.Value, d int) bool {
 	if d > 3 {
 		return false
@@ -836,7 +841,7 @@ func (x *c11) errCtorD(v ssa.Value, d int) bool {
 					continue
 				}
 				n++
-				if !x.errCtorD(ret.Results[0], d+1) {
+				if !x.errCtorD(c11Results(ret)[0], d+1) {
 					return false
 				}
 			}
@@ -939,7 +944,7 @@ func (x *c11) judge(rule, construct, pos string, got, want lanes.Vec, name func(
 		r.Fail(rule, construct, pos, fmt.Sprintf("%s: holds %s, required %s (most significant bit first)", failText, got.String(name), want.String(name)))
 		return
 	}
-	r.Undecided(rule, construct, pos, fmt.Sprintf("bit provenance is ⊤ (unknown): got %s, required %s; because: %s", got.String(name), want.String(name), strings.Join(an.Why, "; ")))
+	x.notDecided(pos, fmt.Sprintf("bit provenance is ⊤ (unknown): got %s, required %s; because: %s", got.String(name), want.String(name), strings.Join(an.Why, "; ")), [2]string{rule, construct})
 }
 
 // ---------------------------------------------------------------------------
@@ -1228,7 +1233,7 @@ func (x *c11) sendIn(fn *ssa.Function, data *ssa.Parameter, fname, pos string, o
 	case unchecked != "":
 		r.Fail(c11R3, construct, wpos, fmt.Sprintf("header and payload reach the connection in %d separate Write calls and %s: a failed or short first Write is followed by the rest of the frame (and a concurrent Send can interleave)", len(writes), unchecked))
 	case !okSeq:
-		r.Undecided(c11R3, construct, wpos, "the bytes passed to Write cannot be described: "+strings.Join(an.Why, "; "))
+		x.notDecided(wpos, "the bytes passed to Write cannot be described: "+strings.Join(an.Why, "; "), [2]string{c11R3, construct})
 	case !shapeOK:
 		r.Fail(c11R3, construct, wpos, fmt.Sprintf("the bytes written are %s, required [byte byte byte byte <%s>] (4-byte header immediately followed by the caller's payload)", shape(), data.Name()))
 	default:
@@ -1241,7 +1246,9 @@ func (x *c11) sendIn(fn *ssa.Function, data *ssa.Parameter, fname, pos string, o
 	c3 := fname + ": frame[3] == len(" + dname + ")[7..0]"
 	c0 := fname + ": frame[0] (TYPE) == " + x.sessNm
 	cg := fname + ": len(" + dname + ") fits the length bits the header carries, at conn.Write"
-	if !shapeOK {
+	if !okSeq {
+		x.notDecided(wpos, "the header bytes could not be located (see "+c11R3+")", [2]string{c11R4, c0}, [2]string{c11R1, c1}, [2]string{c11R1, c2}, [2]string{c11R1, c3}, [2]string{c11R2, cg})
+	} else if !shapeOK {
 		why := "the header bytes could not be located (see " + c11R3 + ")"
 		r.Undecided(c11R4, c0, wpos, why)
 		r.Undecided(c11R1, c1, wpos, why)
@@ -1287,7 +1294,7 @@ func (x *c11) sendIn(fn *ssa.Function, data *ssa.Parameter, fname, pos string, o
 		}
 		switch {
 		case top:
-			r.Undecided(c11R2, cg, wpos, "some header lanes are ⊤, so the set of length bits the header carries is unknown")
+			x.notDecided(wpos, "some header lanes are ⊤, so the set of length bits the header carries is unknown", [2]string{c11R2, cg})
 		case k == 0:
 			r.Fail(c11R2, cg, wpos, "the header carries no low bit of len("+data.Name()+")")
 		default:
@@ -1317,9 +1324,9 @@ func (x *c11) sendIn(fn *ssa.Function, data *ssa.Parameter, fname, pos string, o
 	cb := fname + ": every return that bypasses conn.Write carries a non-nil error"
 	bad := 0
 	nret := 0
-	for _, b := range fn.Blocks {
+	for _, b := range c11RetBlocks(fn) {
 		ret, ok := b.Instrs[len(b.Instrs)-1].(*ssa.Return)
-		if !ok || len(ret.Results) == 0 {
+		if !ok || len(c11Results(ret)) == 0 {
 			continue
 		}
 		after := false
@@ -1332,7 +1339,7 @@ func (x *c11) sendIn(fn *ssa.Function, data *ssa.Parameter, fname, pos string, o
 			continue
 		}
 		nret++
-		if !x.errCtor(ret.Results[len(ret.Results)-1]) {
+		if ev := c11Results(ret)[len(c11Results(ret))-1]; !x.errAt(ev, b) {
 			bad++
 		}
 	}
@@ -1342,22 +1349,22 @@ func (x *c11) sendIn(fn *ssa.Function, data *ssa.Parameter, fname, pos string, o
 	dropped := 0
 	for o := outer; o != nil; o = o.next {
 		succ, fail, errV := c11ErrEdges(o.call)
-		for _, b := range o.fn.Blocks {
+		for _, b := range c11RetBlocks(o.fn) {
 			ret, ok := b.Instrs[len(b.Instrs)-1].(*ssa.Return)
-			if !ok || len(ret.Results) == 0 {
+			if !ok || len(c11Results(ret)) == 0 {
 				continue
 			}
-			ev := ret.Results[len(ret.Results)-1]
+			ev := c11Results(ret)[len(c11Results(ret))-1]
 			if !lanes.Dominates(o.call, ret) {
 				nret++
-				if !x.errCtor(ev) {
+				if !x.errAt(ev, b) {
 					bad++
 				}
 				continue
 			}
 			switch {
 			case errV != nil && ev == errV:
-			case c11Under(fail, b) && x.errCtor(ev):
+			case c11Under(fail, b) && x.errAt(ev, b):
 			case c11Under(succ, b):
 			default:
 				dropped++
@@ -1593,21 +1600,30 @@ func (x *c11) receiveIn(fn *ssa.Function, fname, pos string, outer *c11Outer) {
 			x.judge(c11R1, clZ, mpos, L[17:], want[17:], name, an, "the decoded length has bits above bit 16 that are not 0")
 			// R3: the size is a pure rearrangement of header bits (no arithmetic
 			// offset such as length+1); WHICH bits is R1's business
-			pure := true
+			pure, sizeTop := true, false
 			for _, b := range L {
 				if b.K == lanes.Top || b.K == lanes.One || (b.K == lanes.Src && b.S != 0) {
 					pure = false
 				}
+				if b.K == lanes.Top {
+					sizeTop = true
+				}
 			}
-			if pure {
+			if adj, isAdj := x.arithAdjusted(root, mk.size); isAdj {
+				r.Fail(c11R3, cm, mpos, "the make size is the decoded length adjusted by arithmetic ("+adj+"): the payload read consumes a different number of bytes than the header announces")
+			} else if !pure && sizeTop {
+				x.notDecided(mpos, "the provenance of the make size is ⊤ (unknown): "+an.Expr(mk.size)+" has lanes "+L.String(name)+"; "+strings.Join(an.Why, "; "), [2]string{c11R3, cm})
+			} else if pure {
 				r.OK(c11R3, cm, mpos, "make size "+L.String(name)+" is built from header bits only (no arithmetic adjustment); the same slice is passed to the read")
 			} else {
 				r.Undecided(c11R3, cm, mpos, "the make size is not exactly the decoded length: "+an.Expr(mk.size)+" has lanes "+L.String(name)+"; "+strings.Join(an.Why, "; "))
 			}
 
 			// R4: type check dominates the allocation
-			if x.typeChecked(root, mk.at.Block(), hreg) {
+			if tc, unknown := x.typeChecked(root, mk.at.Block(), hreg); tc {
 				r.OK(c11R4, ct, mpos, "make is dominated by the header[0] == "+x.sessNm+" edge")
+			} else if unknown {
+				x.notDecided(mpos, "the make is dominated by a comparison of a value of unknown provenance (⊤) with "+x.sessNm+": whether it is header[0] is not decided", [2]string{c11R4, ct})
 			} else {
 				r.Fail(c11R4, ct, mpos, "the payload is allocated and read without a dominating test header[0] == "+x.sessNm+": keep-alive/response frames would be returned as session messages")
 			}
@@ -1616,13 +1632,13 @@ func (x *c11) receiveIn(fn *ssa.Function, fname, pos string, outer *c11Outer) {
 
 	// returns
 	ord := 0
-	for _, b := range fn.Blocks {
+	for _, b := range c11RetBlocks(fn) {
 		ret, ok := b.Instrs[len(b.Instrs)-1].(*ssa.Return)
-		if !ok || len(ret.Results) != 2 {
+		if !ok || len(c11Results(ret)) != 2 {
 			continue
 		}
-		ev := ret.Results[1]
-		if x.errCtor(ev) {
+		ev := c11Results(ret)[1]
+		if x.errAt(ev, b) {
 			continue
 		}
 		definitelyErr := false
@@ -1647,14 +1663,14 @@ func (x *c11) receiveIn(fn *ssa.Function, fname, pos string, outer *c11Outer) {
 			}
 			missing = append(missing, role[i])
 		}
-		val := root.Origin(ret.Results[0])
+		val := root.Origin(c11Results(ret)[0])
 		switch {
 		case len(missing) > 0:
 			r.Fail(c11R3, cr, rpos, fmt.Sprintf("the return is not dominated by the success edge of the %s read: a message is returned with a nil error although the stream may have ended inside the frame", strings.Join(missing, " and ")))
 		case mk != nil && val == mk.buf:
 			r.OK(c11R3, cr, rpos, "returns the make([]byte, length) buffer under the success edges of both reads")
 		default:
-			r.Undecided(c11R3, cr, rpos, "the returned slice is not the buffer passed to the payload read: "+an.Expr(ret.Results[0]))
+			r.Undecided(c11R3, cr, rpos, "the returned slice is not the buffer passed to the payload read: "+an.Expr(c11Results(ret)[0]))
 		}
 	}
 	if ord == 0 {
@@ -1665,13 +1681,13 @@ func (x *c11) receiveIn(fn *ssa.Function, fname, pos string, outer *c11Outer) {
 	for o := outer; o != nil; o = o.next {
 		succ, fail, errV := c11ErrEdges(o.call)
 		buf0 := c11Result0(o.call)
-		for _, b := range o.fn.Blocks {
+		for _, b := range c11RetBlocks(o.fn) {
 			ret, ok := b.Instrs[len(b.Instrs)-1].(*ssa.Return)
-			if !ok || len(ret.Results) != 2 {
+			if !ok || len(c11Results(ret)) != 2 {
 				continue
 			}
-			ev := ret.Results[1]
-			if x.errCtor(ev) {
+			ev := c11Results(ret)[1]
+			if x.errAt(ev, b) {
 				continue
 			}
 			if errV != nil && ev == errV && c11Under(fail, b) {
@@ -1680,7 +1696,7 @@ func (x *c11) receiveIn(fn *ssa.Function, fname, pos string, outer *c11Outer) {
 			cr := fmt.Sprintf("%s: a return of %s with a possibly-nil error yields the payload its framing helper returned", fname, o.fn.Name())
 			rpos := p.Rel(ret.Pos())
 			follows := lanes.Dominates(o.call, ret)
-			sameBuf := buf0 != nil && c11FullView(ret.Results[0]) == buf0
+			sameBuf := buf0 != nil && c11FullView(c11Results(ret)[0]) == buf0
 			switch {
 			case follows && sameBuf && errV != nil && ev == errV:
 				// return helper(conn): buffer and error travel together
@@ -1688,7 +1704,7 @@ func (x *c11) receiveIn(fn *ssa.Function, fname, pos string, outer *c11Outer) {
 			case !follows:
 				r.Fail(c11R3, cr, rpos, "the return is not preceded by the call that reads the frame: a message is returned with a nil error although nothing was read")
 			case !sameBuf:
-				r.Undecided(c11R3, cr, rpos, "the returned slice is not the buffer the framing helper returned: "+an.Expr(ret.Results[0]))
+				r.Undecided(c11R3, cr, rpos, "the returned slice is not the buffer the framing helper returned: "+an.Expr(c11Results(ret)[0]))
 			default:
 				r.Fail(c11R3, cr, rpos, "the helper's error is neither returned with its buffer nor tested before the buffer is returned: a stream that ended inside the frame yields a message with a nil error")
 			}
@@ -1717,7 +1733,11 @@ func c11OnlyReturned(v ssa.Value) bool {
 
 // typeChecked: some branch edge dominating `at` is taken exactly when
 // header[0] == SESSION_MESSAGE.
-func (x *c11) typeChecked(root *lanes.Frame, at *ssa.BasicBlock, hreg lanes.Region) bool {
+func (x *c11) typeChecked(root *lanes.Frame, at *ssa.BasicBlock, hreg lanes.Region) (checked, unknown bool) {
+	isTop := func(v ssa.Value) bool {
+		l := root.Lanes(v)
+		return len(l) >= 8 && l[:8].HasTop()
+	}
 	isHdr0 := func(v ssa.Value) bool {
 		l := root.Lanes(v)
 		if len(l) < 8 {
@@ -1755,16 +1775,187 @@ func (x *c11) typeChecked(root *lanes.Frame, at *ssa.BasicBlock, hreg lanes.Regi
 		if !ok || (bo.Op != token.EQL && bo.Op != token.NEQ) {
 			continue
 		}
-		if !((isHdr0(bo.X) && isSess(bo.Y)) || (isHdr0(bo.Y) && isSess(bo.X))) {
-			continue
-		}
 		eqEdge := d.Succs[0]
 		if bo.Op == token.NEQ {
 			eqEdge = d.Succs[1]
 		}
+		if !((isHdr0(bo.X) && isSess(bo.Y)) || (isHdr0(bo.Y) && isSess(bo.X))) {
+			if eqEdge == b && ((isTop(bo.X) && isSess(bo.Y)) || (isTop(bo.Y) && isSess(bo.X))) {
+				unknown = true
+			}
+			continue
+		}
 		if eqEdge == b {
+			return true, false
+		}
+	}
+	return false, unknown
+}
+
+// c11Results: the values a return statement yields. In a function with a defer
+// go/ssa spills the results to local cells before rundefers and reloads them
+// for the return; the spilled value is read back from the store in the same
+// block (the cells are written nowhere else: no closure captures them).
+func c11Results(ret *ssa.Return) []ssa.Value {
+	out := make([]ssa.Value, len(ret.Results))
+	for i, v := range ret.Results {
+		out[i] = v
+		ld, ok := v.(*ssa.UnOp)
+		if !ok || ld.Op != token.MUL {
+			continue
+		}
+		al, ok := ld.X.(*ssa.Alloc)
+		if !ok || al.Referrers() == nil {
+			continue
+		}
+		plain := true
+		for _, r := range *al.Referrers() {
+			switch u := r.(type) {
+			case *ssa.Store:
+				if u.Addr != ssa.Value(al) {
+					plain = false
+				}
+			case *ssa.UnOp, *ssa.DebugRef:
+			default:
+				plain = false
+			}
+		}
+		if !plain {
+			continue
+		}
+		var last ssa.Value
+		for _, in := range ret.Block().Instrs {
+			if in == ssa.Instruction(ld) {
+				break
+			}
+			if st, ok := in.(*ssa.Store); ok && st.Addr == ssa.Value(al) {
+				last = st.Val
+			}
+		}
+		if last != nil {
+			out[i] = last
+		}
+	}
+	return out
+}
+
+// c11KnownNonNil: block b is reached only through the `v != nil` edge of a test
+// of v against nil.
+func c11KnownNonNil(v ssa.Value, b *ssa.BasicBlock) bool {
+	for x := b; x != nil; x = x.Idom() {
+		d := x.Idom()
+		if d == nil || len(x.Preds) != 1 || x.Preds[0] != d {
+			continue
+		}
+		iff, ok := d.Instrs[len(d.Instrs)-1].(*ssa.If)
+		if !ok || len(d.Succs) != 2 || d.Succs[0] == d.Succs[1] {
+			continue
+		}
+		bo, ok := iff.Cond.(*ssa.BinOp)
+		if !ok || (bo.Op != token.EQL && bo.Op != token.NEQ) {
+			continue
+		}
+		other := bo.Y
+		if bo.X != v {
+			if bo.Y != v {
+				continue
+			}
+			other = bo.X
+		}
+		if k, isK := other.(*ssa.Const); !isK || k.Value != nil {
+			continue
+		}
+		ne := d.Succs[0]
+		if bo.Op == token.EQL {
+			ne = d.Succs[1]
+		}
+		if ne == x {
 			return true
 		}
 	}
 	return false
+}
+
+// c11RetBlocks: the blocks of fn whose Return can execute. The synthetic
+// recover block of a function with a defer only runs after a deferred call
+// recovered a panic; it is left out when no deferred call can do that (every
+// defer is a static call of a function outside the module, or of an in-module
+// function that does not call recover).
+func c11RetBlocks(fn *ssa.Function) []*ssa.BasicBlock {
+	if fn.Recover == nil {
+		return fn.Blocks
+	}
+	var recovers func(f *ssa.Function, d int) bool
+	recovers = func(f *ssa.Function, d int) bool {
+		if f == nil || d > 3 {
+			return true
+		}
+		for _, b := range f.Blocks {
+			for _, in := range b.Instrs {
+				if c, ok := in.(ssa.CallInstruction); ok {
+					if bi, isB := c.Common().Value.(*ssa.Builtin); isB && bi.Name() == "recover" {
+						return true
+					}
+				}
+			}
+		}
+		for _, a := range f.AnonFuncs {
+			if recovers(a, d+1) {
+				return true
+			}
+		}
+		return false
+	}
+	for _, b := range fn.Blocks {
+		for _, in := range b.Instrs {
+			df, ok := in.(*ssa.Defer)
+			if !ok {
+				continue
+			}
+			callee := df.Common().StaticCallee()
+			if callee == nil {
+				return fn.Blocks
+			}
+			if callee.Blocks != nil && callee.Pkg != nil && fn.Pkg != nil && callee.Pkg.Pkg.Path() != "sync" && recovers(callee, 0) {
+				return fn.Blocks
+			}
+		}
+	}
+	var out []*ssa.BasicBlock
+	for _, b := range fn.Blocks {
+		if b != fn.Recover {
+			out = append(out, b)
+		}
+	}
+	return out
+}
+
+// arithAdjusted: v is `d ± k` or `d * k` with k a constant that changes the
+// value and d built from header bits.
+func (x *c11) arithAdjusted(root *lanes.Frame, v ssa.Value) (string, bool) {
+	bo, ok := root.Origin(v).(*ssa.BinOp)
+	if !ok {
+		return "", false
+	}
+	switch bo.Op {
+	case token.ADD, token.SUB, token.MUL:
+	default:
+		return "", false
+	}
+	for _, pr := range [][2]ssa.Value{{bo.X, bo.Y}, {bo.Y, bo.X}} {
+		k, isK := pr[0].(*ssa.Const)
+		if !isK || k.Value == nil || k.Value.Kind() != constant.Int {
+			continue
+		}
+		n, exact := constant.Int64Val(k.Value)
+		if !exact || (bo.Op == token.MUL && n == 1) || (bo.Op != token.MUL && n == 0) {
+			continue
+		}
+		for _, b := range root.Lanes(pr[1]) {
+			if b.K == lanes.Src && b.S == 0 {
+				return fmt.Sprintf("%s %s %d", "decoded length", bo.Op, n), true
+			}
+		}
+	}
+	return "", false
 }
